@@ -1033,17 +1033,193 @@ def _nlsat_relaxed(ob, timeout_ms):
     return None          # sat over the reals proves nothing about the integer statement
 
 
+def _uf_apps(e, acc, seen):
+    if e.get_id() in seen:
+        return
+    seen.add(e.get_id())
+    for c in e.children():
+        _uf_apps(c, acc, seen)
+    if z3.is_app(e) and e.num_args() > 0 and e.decl().kind() == z3.Z3_OP_UNINTERPRETED:
+        acc.append(e)
+
+
+def _poly_identity(g):
+    """g is valid because it is (an implication / conjunction of) equalities whose two sides have the same
+    sum-of-monomials normal form"""
+    if z3.is_true(g):
+        return True
+    if z3.is_and(g):
+        return all(_poly_identity(c) for c in g.children())
+    if z3.is_implies(g):
+        return _poly_identity(g.arg(1))
+    if z3.is_eq(g) and g.arg(0).sort().kind() in (z3.Z3_INT_SORT, z3.Z3_REAL_SORT):
+        if len(str(g)) > 40000:
+            return False
+        d = z3.simplify(g.arg(0) - g.arg(1), som=True)
+        return z3.is_rational_value(d) and d.numerator_as_long() == 0
+    return False
+
+
+def _free_consts(e, acc, seen):
+    if e.get_id() in seen:
+        return
+    seen.add(e.get_id())
+    if z3.is_const(e) and e.decl().kind() == z3.Z3_OP_UNINTERPRETED:
+        acc[e.get_id()] = e
+    for c in e.children():
+        _free_consts(c, acc, seen)
+
+
+def _probably_different(x, y):
+    """numeric refutation of x == y at two fixed pseudo-random points (only used to skip hopeless solver calls)"""
+    acc = {}
+    _free_consts(x, acc, set())
+    _free_consts(y, acc, set())
+    vs = sorted(acc.values(), key=lambda v: str(v))
+    for trial in (1, 2):
+        sub = []
+        for i, v in enumerate(vs):
+            val = 3 + ((i * 7 + trial * 5) % 11)
+            sub.append((v, z3.IntVal(val) if v.sort().kind() == z3.Z3_INT_SORT else z3.RealVal("%d/%d" % (val * 2 + 1, 2))))
+        try:
+            a = z3.simplify(z3.substitute(x, *sub))
+            b = z3.simplify(z3.substitute(y, *sub))
+        except z3.Z3Exception:
+            return False
+        num = lambda t: z3.is_rational_value(t) or z3.is_int_value(t) or z3.is_algebraic_value(t)
+        if num(a) and num(b) and not z3.is_true(z3.simplify(a == b)):
+            return True
+    return False
+
+
+def _congruence_abstracted(ob, timeout_ms):
+    """tactic for goals that are equalities of products containing uninterpreted function applications whose arguments
+    are equal only up to arithmetic (polynomial identities, x/c vs x*(1/c) with c != 0):
+    bottom-up, applications of the same function whose arguments are PROVED equal under the hypotheses are replaced by
+    one fresh constant (every other application by its own constant) in hypotheses and goal alike.  The abstracted
+    obligation generalises the original one, so unsat carries over; anything else is discarded."""
+    import time
+    t_end = time.time() + timeout_ms / 1000.0
+    hyps, goal = list(ob.hyps), ob.goal
+
+    def _is_light(h):
+        if len(str(h)) > 400:
+            return False
+        acc = []
+        _uf_apps(h, acc, set())
+        return not acc
+    light = [h for h in hyps if _is_light(h)]      # bounds and definitions of ceil / div witnesses: enough for c != 0 side conditions
+    for _round in range(6):
+        apps = []
+        _uf_apps(goal, apps, set())
+        # innermost first: applications none of whose arguments contains another application
+        def has_inner(a):
+            inner = []
+            for c in a.children():
+                _uf_apps(c, inner, set())
+            return bool(inner)
+        leaves = [a for a in apps if not has_inner(a)]
+        if not leaves:
+            break
+        classes = []     # list of lists of apps
+        for a in leaves:
+            placed = False
+            for cl in classes:
+                b = cl[0]
+                if not b.decl().eq(a.decl()):
+                    continue
+                if a.eq(b):
+                    placed = True
+                    break
+                eqs = [x == y for x, y in zip(a.children(), b.children()) if not x.eq(y)]
+                ok = True
+                for e_ in eqs:
+                    d = z3.simplify(e_.arg(0) - e_.arg(1), som=True) if e_.arg(0).sort().kind() in (z3.Z3_INT_SORT, z3.Z3_REAL_SORT) else None
+                    if d is not None and z3.is_rational_value(d) and d.numerator_as_long() == 0:
+                        continue
+                    if time.time() > t_end:
+                        return None
+                    x_, y_ = z3.simplify(e_.arg(0)), z3.simplify(e_.arg(1))
+                    if (z3.is_rational_value(x_) or z3.is_int_value(x_)) and (z3.is_rational_value(y_) or z3.is_int_value(y_)):
+                        ok = False          # two different numerals
+                        break
+                    proved = False
+                    if _probably_different(x_, y_):
+                        ok = False
+                        break
+                    for hy, budget in (([], 500), (light, 1500), (hyps, 1500)):
+                        sv = z3.Solver()
+                        sv.set("timeout", budget)
+                        sv.add(*hy)
+                        sv.add(z3.Not(e_))
+                        if sv.check() == z3.unsat:
+                            proved = True
+                            break
+                    if not proved:
+                        ok = False
+                        break
+                if ok:
+                    cl.append(a)
+                    placed = True
+                    break
+            if not placed:
+                classes.append([a])
+        sub = []
+        for cl in classes:
+            c = z3.FreshConst(cl[0].sort(), "uf")
+            for a in cl:
+                sub.append((a, c))
+        goal = z3.substitute(goal, *sub)
+        hyps = [z3.substitute(h, *sub) for h in hyps]
+    if goal.eq(ob.goal):
+        return None
+    if _poly_identity(goal):
+        return dict(status="unsat", backend="congruence-abstraction+polynomial-normal-form", model=None)
+    import os as _os
+    if _os.environ.get("PYVC_DEBUG_CONGR"):
+        print("CONGR-ABSTRACTED GOAL", ob.name[-60:], "\n", goal)
+    s = z3.Solver()
+    s.set("timeout", max(1000, int((t_end - time.time()) * 1000)))
+    s.add(*hyps)
+    s.add(z3.Not(goal))
+    if s.check() == z3.unsat:
+        return dict(status="unsat", backend="z3(congruence-abstracted)", model=None)
+    ex = None
+    try:
+        ex = relax_ints(hyps + [goal])
+    except _NoRelax:
+        return None
+    s2 = z3.Tactic("qfnra-nlsat").solver()
+    s2.set("timeout", max(1000, int((t_end - time.time()) * 1000)))
+    s2.add(*ex[:-1])
+    s2.add(z3.Not(ex[-1]))
+    try:
+        if s2.check() == z3.unsat:
+            return dict(status="unsat", backend="z3-nlsat(congruence-abstracted)", model=None)
+    except z3.Z3Exception:
+        pass
+    return None
+
+
 def discharge(ob, timeout_ms=10000, use_cvc5=True):
     """returns dict(status= 'unsat'|'sat'|'unknown', backend, time_s, model)"""
     import time
     t0 = time.time()
     reason = None
-    for phase, budget in (("quick", min(timeout_ms, 2500)), ("reseed1", min(timeout_ms, 2500)), ("reseed2", min(timeout_ms, 2500)),
+    for phase, budget in (("quick", min(timeout_ms, 2500)), ("congr", timeout_ms), ("reseed1", min(timeout_ms, 2500)), ("reseed2", min(timeout_ms, 2500)),
                           ("nlsat", timeout_ms), ("full", timeout_ms)):
+        if phase == "congr" and timeout_ms <= 2500:
+            continue
         if phase.startswith("reseed") and timeout_ms <= 2500:
             continue
-        if phase == "nlsat":
-            r1 = _nlsat_relaxed(ob, budget)
+        if phase in ("nlsat", "congr"):
+            if phase == "nlsat":
+                r1 = _nlsat_relaxed(ob, budget)
+            else:
+                try:
+                    r1 = _congruence_abstracted(ob, budget)
+                except z3.Z3Exception:
+                    r1 = None
             if r1 is not None:
                 r1["time_s"] = time.time() - t0
                 return r1
